@@ -988,7 +988,17 @@ func (s *Store) monitorLeaseAsPrimary(ctx context.Context, lease Lease) error {
 			//
 			// If we just have a connection error then we'll try to more
 			// aggressively retry the renewal until we exceed TTL.
-			if err := lease.Renew(ctx); err == ErrLeaseExpired {
+			//
+			// A lease service that accepts the request and does not answer must
+			// not keep us primary: wait no longer than what is left of the TTL.
+			renewTimeout := lease.TTL() - time.Since(lease.RenewedAt()) - timeout
+			if renewTimeout < timeout {
+				renewTimeout = timeout
+			}
+			renewCtx, cancel := context.WithTimeout(ctx, renewTimeout)
+			err := lease.Renew(renewCtx)
+			cancel()
+			if err == ErrLeaseExpired {
 				return err
 			} else if err != nil {
 				// If our next renewal will exceed TTL, exit now.
